@@ -173,7 +173,7 @@ def h_lp(s, A, mode, fixed, minimize, max_iter=None):
     if not minimize:
         s.goal("lp.maximize")
     s.observe("objective", res.objective)
-    s.observe("x", x)
+    s.observe("x_len", len(x))
 
 
 # ------------------------------------------------------------------------------------------ interior point
